@@ -149,6 +149,9 @@ def main_wrap(fn, pid):
     """uniform exit-code handling: 0 ok, 1 violation, 2 inconclusive / tool error"""
     import traceback
     import argparse
+    import faulthandler
+    import signal
+    faulthandler.register(signal.SIGUSR1, all_threads=True)     # kill -USR1 <pid> dumps the python stack (debugging aid)
     ap = argparse.ArgumentParser()
     ap.add_argument('--tier', default=os.environ.get('VERIF_TIER', 'quick'))
     ap.add_argument('--replay', default=None)
